@@ -44,7 +44,7 @@ ASSUMPTIONS = [
     "targets = DEFAULT_TARGETS (so that every documented input that is a DAG root is 'required')",
     "numeric text columns are convertible (pandas str dtype) and are not counted as a fault; non-numeric text is",
 ]
-BUDGET = {"quick": (16, 5), "thorough": (None, 12)}
+BUDGET = {"quick": (16, 5), "thorough": (None, 4)}
 GEN = dict(mode="branch", max_households=3)
 HH_INPUTS = [c for c in TYPES_INPUT_VARIABLES if c.endswith("_hh")]
 
@@ -271,7 +271,7 @@ def strategy(date, ctx):
     def s(draw):
         pop = draw(popgen.populations(date, **(dict(GEN, max_households=2) if thorough else GEN)))
         allf = eligible_faults(pop.df, date)
-        if thorough and len(pop.df) <= 8:
+        if thorough and len(pop.df) <= 4:
             chosen = allf
         else:
             by_cls = {}
